@@ -280,7 +280,7 @@ theorem descriptor_creation_flags (k k' : K) :
           rw [h1] at ho
           injection ho with hn hk; subst hn hk
           exact getfd_of_entry _ _ _ h2
-        · rw [hl.2.1 e hfa (by omega)] at ho; simp at ho
+        · rw [hl.2.1 e hfa hab (by omega)] at ho; simp at ho
     · simp at h
 
 example : ∃ k', step exK1 .tmp = (k', .num 1) ∧ (step k' (.getfd 1)).2 = .flag false := ⟨_, rfl, rfl⟩
@@ -417,11 +417,11 @@ theorem wf_dup2 {k k' : K} (h : WF k) {a b n : Nat} (ho : dup2 k a b = .ok n k')
   · simp at ho
   · rename_i e he
     split at ho
-    · simp at ho
-    · rename_i hb
-      split at ho
-      · injection ho with h1 h2; subst h2; exact h
-      · injection ho with h1 h2; subst h2
+    · injection ho with h1 h2; subst h2; exact h
+    · split at ho
+      · simp at ho
+      · rename_i hb
+        injection ho with h1 h2; subst h2
         have heo := (h a e he).2
         exact wf_setFd_lt h b _ k.ofds k.tree (by omega) heo (Nat.le_refl _)
 
